@@ -20,6 +20,9 @@ type baseHandler struct {
 	commands     chan string
 	receiveBuf   bytes.Buffer
 	status       int
+	// readRest is the part of a command which did not fit into the buffer of
+	// the previous Read call.
+	readRest []byte
 }
 
 func (h *baseHandler) String() string {
@@ -78,9 +81,20 @@ func (h *baseHandler) Write(p []byte) (n int, err error) {
 
 // Send data to the dtail server via Reader interface.
 func (h *baseHandler) Read(p []byte) (n int, err error) {
+	// Deliver what did not fit into the caller's buffer last time first.
+	if len(h.readRest) > 0 {
+		n = copy(p, h.readRest)
+		h.readRest = h.readRest[n:]
+		return
+	}
 	select {
 	case command := <-h.commands:
 		n = copy(p, []byte(command))
+		if n < len(command) {
+			// A command can be larger than p (e.g. a long regex and io.Copy's 32k
+			// buffer): keep the remainder for the next call instead of losing it.
+			h.readRest = []byte(command[n:])
+		}
 	case <-h.Done():
 		return 0, io.EOF
 	}
